@@ -149,7 +149,7 @@ var accessorNames = map[string]string{
 	"getValue": "value", "getDecoratedValue": "value", "setValue": "value", "setDecoratedValue": "value",
 	"getValueProviders": "value", "getAllValueProviders": "value", "getValueDecorator": "value",
 	"getValueGroup": "group-elem", "getGroupProviders": "group-elem", "getAllGroupProviders": "group-elem", "getGroupDecorator": "group-elem",
-	"getDecoratedValueGroup": "group-slice", "submitGroupedValue": "group-res", "submitDecoratedGroupedValue": "group-res",
+	"getDecoratedValueGroup": "group-elem", "submitGroupedValue": "group-res", "submitDecoratedGroupedValue": "group-dec",
 }
 
 var reDisc = regexp.MustCompile(`^(.*)\.(Name|Group|name|group)$`)
@@ -157,7 +157,7 @@ var reDisc = regexp.MustCompile(`^(.*)\.(Name|Group|name|group)$`)
 // ruleK2: accessor arguments agree across the value path.
 func ruleK2(rule string) RuleFn {
 	return func(c *an.Ctx) {
-		c.Rule(rule, "K2 key agreement (reader/writer table): at every call of a containerStore/containerWriter accessor outside the accessor implementations themselves, the (discriminator, type) arguments are fields of one and the same IR object B: value accessors take (B.Name, B.Type) or (B.Name, as) for as ranging over B.As; group accessors called for a paramGroupedSlice take (B.Group, B.Type.Elem()); the decorated-group lookup takes (B.Group, B.Type) (the slice type a group decorator returns); resultGrouped submits under (B.Group, B.Type) or (B.Group, as∈B.As); stagingContainerWriter.Commit and newErrMissingTypes pass the components of one key k (k.name|k.group, k.t resp. a suggested type)")
+		c.Rule(rule, "K2 key agreement (reader/writer table): at every call of a containerStore/containerWriter accessor outside the accessor implementations themselves, the (discriminator, type) arguments are fields of one and the same IR object B: value accessors take (B.Name, B.Type) or (B.Name, as) for as ranging over B.As; group accessors called for a paramGroupedSlice take (B.Group, B.Type.Elem()); the decorated-group lookup and store take the element type too (B.Group, B.Type.Elem()), because the slice types declared by a decorator and by its consumers need not coincide; resultGrouped submits members under (B.Group, B.Type) or (B.Group, as∈B.As); stagingContainerWriter.Commit and newErrMissingTypes pass the components of one key k (k.name|k.group, k.t resp. a suggested type)")
 		n := 0
 		for _, fn := range c.P.Funcs {
 			// skip the accessor implementations and pure forwarders
@@ -215,11 +215,13 @@ func ruleK2(rule string) RuleFn {
 					} else {
 						why = "a group accessor on the consuming side must receive (B.Group, B.Type.Elem())"
 					}
-				case "group-slice":
-					if disc == "Group" && a1 == base+".Type" {
+				case "group-dec":
+					// a decorated group is one slice; it is filed under the group's ELEMENT type, the only type the decorator
+					// and its consumers are guaranteed to share (each may declare its own slice type for the same elements)
+					if disc == "Group" && a1 == base+".Type.Elem()" {
 						good = true
 					} else {
-						why = "the decorated-group lookup must receive (B.Group, B.Type) (slice type)"
+						why = "a decorated group must be stored under (B.Group, B.Type.Elem()): keyed by the slice type the decorator happens to declare, it is not found by a consumer that declares another slice type of the same elements (type Strs []string vs []string) and that consumer silently gets the undecorated group"
 					}
 				case "group-res":
 					switch {
